@@ -1,15 +1,228 @@
-(** C12 — bitmap construction and inspection agree (placeholder: replaced when the proofs land) *)
-From Coq Require Import ZArith List Bool Lia.
-From Low Require Import Lib.Bits Lib.BitSeq Model.BuilderOps Model.BitmapOf Spec.OfSpec.
+(** C12 — bitmap construction and inspection agree on which bits are set.
+    Only the property theorems (each closed by [exact]), their axiom audit and the
+    non-vacuity examples.  Vocabulary ([Spec/OfSpec.v], [Lib/BitSeq.v]): [flat ws] the bit
+    sequence of a bitmap, [ones bs] the ascending positions of its 1-bits, [usort l] the sorted
+    union (ascending, duplicates dropped), [words_for n = ceil(n/64)], [of_bits ps n =
+    max(n, last+1, 0)], [strip0 ws] = ws without its trailing all-zero words, [astep] the abstract
+    Builder (positions set so far, offset).
+    Size hypothesis of DESIGN section 3: positions/sizes are unbounded [Z] in the model; Go's
+    int32 agrees while every position, size and n stays below 2^31 - 64. *)
+From Coq Require Import ZArith List Bool Sorted.
+From Low Require Import Lib.Bits Lib.BitSeq Model.BuilderOps Model.BitmapOf Spec.OfSpec
+  Proofs.OfProofs Proofs.OfInspect Proofs.OfRoundTrip Proofs.BuilderProofs.
 Import ListNotations.
 Open Scope Z_scope.
 
-Theorem C12_NewBuilder_partial : forall n, 0 <= n ->
-  exists b, NewBuilder n = Some b /\ builder_ok {| abits := []; aoff := 0 |} (Words b) (Offset b).
+(** * Of *)
+(** strictly ascending, non-negative positions, any optional n (absent, negative, smaller or larger
+    than last+1): Of does not panic, returns ceil(max(n, last+1, 0)/64) words, and the 1-bits of the
+    result are exactly the listed positions *)
+Theorem C12_Of : forall ps opt,
+  StronglySorted Z.lt ps -> (forall p, In p ps -> 0 <= p) ->
+  exists r, Of ps opt = Some r /\ words_ok r /\ zlen r = words_for (of_bits ps opt) /\
+            ones (flat r) = ps.
+Proof. exact Of_ascending. Qed.
+Print Assumptions C12_Of.
+
+(** merely sorted (duplicates allowed): same length, the sorted union of the positions *)
+Theorem C12_Of_sorted : forall ps opt,
+  sortedb ps = true -> nonnegb ps = true ->
+  exists r, Of ps opt = Some r /\ spec_Of ps opt r.
+Proof. exact Of_sorted. Qed.
+Print Assumptions C12_Of_sorted.
+
+(** ... i.e. the same set of positions *)
+Theorem C12_Of_sorted_set : forall ps opt,
+  sortedb ps = true -> nonnegb ps = true ->
+  exists r, Of ps opt = Some r /\ forall p, In p (ones (flat r)) <-> In p ps.
+Proof. exact Of_sorted_set. Qed.
+Print Assumptions C12_Of_sorted_set.
+
+(** * ToArray *)
+(** total (any word list), exactly the positions of the 1-bits in ascending order *)
+Theorem C12_ToArray : forall ws, ToArray ws = Some (ones (flat ws)).
+Proof. exact ToArray_exact. Qed.
+Print Assumptions C12_ToArray.
+
+(** * round trips *)
+Theorem C12_ToArray_Of : forall ps opt,
+  StronglySorted Z.lt ps -> (forall p, In p ps -> 0 <= p) ->
+  exists r, Of ps opt = Some r /\ ToArray r = Some ps.
+Proof. exact ToArray_Of. Qed.
+Print Assumptions C12_ToArray_Of.
+
+Theorem C12_ToArray_Of_sorted : forall ps opt,
+  sortedb ps = true -> nonnegb ps = true ->
+  exists r, Of ps opt = Some r /\ ToArray r = Some (usort ps).
+Proof. exact ToArray_Of_sorted. Qed.
+Print Assumptions C12_ToArray_Of_sorted.
+
+(** Of (ToArray b) = b without its trailing zero words ... *)
+Theorem C12_Of_ToArray : forall ws, words_ok ws ->
+  exists l, ToArray ws = Some l /\ Of l None = Some (strip0 ws).
+Proof. exact Of_ToArray. Qed.
+Print Assumptions C12_Of_ToArray.
+
+(** ... that is: b = result ++ zero words, the bit sequences agree up to trailing 0 bits, and the
+    result has no trailing zero word *)
+Theorem C12_Of_ToArray_flat : forall ws, words_ok ws ->
+  exists l r k, ToArray ws = Some l /\ Of l None = Some r /\
+    ws = r ++ repeat 0 k /\ flat ws = flat r ++ repeat false (64 * k) /\ (r = [] \/ last r 0 <> 0).
+Proof. exact Of_ToArray_flat. Qed.
+Print Assumptions C12_Of_ToArray_flat.
+
+(** * Get / Get1 / SafeGet / SafeGet1 *)
+(** inside the bitmap: the bit in place (2^(i mod 64) or 0) / in bit 0 (1 or 0) *)
+Theorem C12_Get : forall ws i, 0 <= i < 64 * zlen ws ->
+  Get ws i = Some (if bitz (flat ws) i then 2 ^ (i mod 64) else 0) /\
+  Get1 ws i = Some (Z.b2z (bitz (flat ws) i)).
+Proof. exact (fun ws i H => conj (Get_exact ws i H) (Get1_exact ws i H)). Qed.
+Print Assumptions C12_Get.
+
+(** Get/Get1 report membership in what ToArray lists *)
+Theorem C12_Get_member : forall ws i, 0 <= i ->
+  (spec_Get ws i <> 0 <-> In i (ones (flat ws))) /\ (spec_Get1 ws i = 1 <-> In i (ones (flat ws))).
+Proof. exact spec_Get_member. Qed.
+Print Assumptions C12_Get_member.
+
+(** the Safe variants are total over every i (no hypothesis at all: any word list, any integer) *)
+Theorem C12_SafeGet_total : forall ws i,
+  SafeGet ws i = Some (spec_SafeGet ws i) /\ SafeGet1 ws i = Some (spec_SafeGet1 ws i).
+Proof. exact (fun ws i => conj (SafeGet_total ws i) (SafeGet1_total ws i)). Qed.
+Print Assumptions C12_SafeGet_total.
+
+(** 0 for every i outside (negative or >= 64 |bm|) *)
+Theorem C12_SafeGet_outside : forall ws i, ~ (0 <= i < 64 * zlen ws) ->
+  SafeGet ws i = Some 0 /\ SafeGet1 ws i = Some 0.
+Proof. exact SafeGet_outside. Qed.
+Print Assumptions C12_SafeGet_outside.
+
+(** the same as Get/Get1 inside *)
+Theorem C12_SafeGet_inside : forall ws i, 0 <= i < 64 * zlen ws ->
+  SafeGet ws i = Get ws i /\ SafeGet1 ws i = Get1 ws i.
+Proof. exact SafeGet_inside. Qed.
+Print Assumptions C12_SafeGet_inside.
+
+(** * OfMany *)
+(** OfMany subs sizes = Of (positions shifted by the running sum of the preceding sizes) (sum of sizes),
+    panics included (no domain restriction) *)
+Theorem C12_OfMany_eq : forall subs sizes, length subs = length sizes ->
+  OfMany subs sizes = Of (shifted subs sizes 0) (Some (total sizes)).
+Proof. exact OfMany_eq. Qed.
+Print Assumptions C12_OfMany_eq.
+
+(** where the shifted concatenation is ascending and non-negative, it does not panic and sets exactly
+    those bits, with ceil(max(sum sizes, last+1, 0)/64) words *)
+Theorem C12_OfMany : forall subs sizes, ofmany_dom subs sizes = true ->
+  exists r, OfMany subs sizes = Some r /\ spec_OfMany subs sizes r.
+Proof. exact OfMany_sorted. Qed.
+Print Assumptions C12_OfMany.
+
+(** * Builder *)
+(** one call preserves the invariant: Offset and the set of 1-bits follow the abstract machine; Words
+    grows to exactly max(old length, words needed) *)
+Theorem C12_Builder_Extend : forall a b ps size,
+  binv a b -> sortedb ps = true -> nonnegb ps = true -> 0 <= size ->
+  exists b', Extend b ps size = Some b' /\ binv (astep a (BExtend ps size)) b' /\
+             zlen (Words b') = Z.max (zlen (Words b)) (words_for (extend_end (Offset b) ps size)).
+Proof. exact Extend_step. Qed.
+Print Assumptions C12_Builder_Extend.
+
+Theorem C12_Builder_Set : forall a b p v,
+  binv a b -> 0 <= p ->
+  exists b', SetBit b p v = Some b' /\ binv (astep a (BSet p v)) b' /\
+             zlen (Words b') = Z.max (zlen (Words b)) (p / 64 + 1).
+Proof. exact Set_step. Qed.
+Print Assumptions C12_Builder_Set.
+
+(** any history (any length) of Extend (ps ascending with duplicates allowed, non-negative, size >= 0,
+    positions >= size allowed) and Set (p >= 0, any value) from NewBuilder(n): no call panics, and after
+    EVERY call Offset = the abstract offset (sum of sizes, resp. max(Offset, p+1) after Set),
+    ones (flat Words) = the sorted union of the shifted positions and of the Set positions with odd
+    value, Offset <= 64 |Words| and every position set so far is < 64 |Words| *)
+Theorem C12_Builder_history : forall n ops,
+  0 <= n -> forallb bop_dom ops = true ->
+  exists b0 bs, NewBuilder n = Some b0 /\ brun b0 ops = Some bs /\
+    Forall2 (fun a b => builder_ok a (Words b) (Offset b) /\
+                        0 <= Offset b <= 64 * zlen (Words b) /\
+                        forall p, In p (abits a) -> 0 <= p < 64 * zlen (Words b))
+            (arun abs0 ops) bs.
+Proof. exact Builder_history. Qed.
+Print Assumptions C12_Builder_history.
+
+(** the final state, with the abstract machine folded over the history *)
+Theorem C12_Builder_final : forall n ops,
+  0 <= n -> forallb bop_dom ops = true ->
+  exists b0 b, NewBuilder n = Some b0 /\ bfold b0 ops = Some b /\
+    let a := fold_left astep ops abs0 in
+    Offset b = aoff a /\ words_ok (Words b) /\ ones (flat (Words b)) = usort (abits a) /\
+    0 <= Offset b <= 64 * zlen (Words b) /\
+    forall p, In p (abits a) -> 0 <= p < 64 * zlen (Words b).
+Proof. exact Builder_final. Qed.
+Print Assumptions C12_Builder_final.
+
+(** a sequence of Extend calls yields the set of bits Of builds from the shifted positions, Offset =
+    the sum of the sizes; and the bits OfMany builds wherever OfMany is applicable *)
+Theorem C12_Builder_Extend_Of : forall n subs sizes,
+  0 <= n -> length subs = length sizes ->
+  Forall (fun ps => sortedb ps = true /\ nonnegb ps = true) subs -> Forall (fun s => 0 <= s) sizes ->
+  exists b0 b r, NewBuilder n = Some b0 /\ bfold b0 (extends subs sizes) = Some b /\
+    Offset b = total sizes /\
+    Of (usort (shifted subs sizes 0)) (Some (total sizes)) = Some r /\
+    ones (flat (Words b)) = ones (flat r) /\
+    (sortedb (shifted subs sizes 0) = true ->
+       exists r', OfMany subs sizes = Some r' /\ ones (flat (Words b)) = ones (flat r')).
+Proof. exact Builder_Extend_Of. Qed.
+Print Assumptions C12_Builder_Extend_Of.
+
+(** * non-vacuity *)
+(** Of: positions at 63/64/65 and a gap of more than 3 words, n smaller than last+1 *)
+Example C12_Of_nonvacuous :
+  StronglySorted Z.lt [0; 63; 64; 65; 400] /\ (forall p, In p [0; 63; 64; 65; 400] -> 0 <= p) /\
+  Of [0; 63; 64; 65; 400] (Some 100) = Some [2^63 + 1; 3; 0; 0; 0; 0; 2^16] /\
+  words_for (of_bits [0; 63; 64; 65; 400] (Some 100)) = 7 /\
+  Of [] (Some (-5)) = Some [] /\ Of [] (Some 65) = Some [0; 0] /\
+  sortedb [3; 3; 70] = true /\ Of [3; 3; 70] None = Some [8; 64] /\ usort [3; 3; 70] = [3; 70].
 Proof.
-  intros n Hn. unfold NewBuilder. rewrite Z.shiftr_div_pow2 by lia.
-  destruct (Z.ltb_spec (n / 2 ^ 6) 0) as [H|H].
-  - exfalso. assert (0 <= n / 2 ^ 6) by (apply Z.div_pos; lia). lia.
-  - eexists. split; [reflexivity|]. repeat split. constructor.
+  split; [repeat constructor|]. split; [cbn [In]; intros p H; intuition (subst; discriminate)|].
+  vm_compute. intuition congruence.
 Qed.
-Print Assumptions C12_NewBuilder_partial.
+
+Example C12_ToArray_nonvacuous :
+  ToArray [2^63 + 1; 3; 0; 0; 0; 0; 2^16] = Some [0; 63; 64; 65; 400] /\
+  words_ok [5; 0; 2^63; 0; 0] /\ strip0 [5; 0; 2^63; 0; 0] = [5; 0; 2^63] /\
+  ToArray [5; 0; 2^63; 0; 0] = Some [0; 2; 191] /\ Of [0; 2; 191] None = Some [5; 0; 2^63].
+Proof.
+  split; [vm_compute; reflexivity|]. split; [apply words_okb_ok; reflexivity|].
+  vm_compute. intuition congruence.
+Qed.
+
+Example C12_Get_nonvacuous :
+  0 <= 127 < 64 * zlen [5; 2^63] /\
+  Get [5; 2^63] 127 = Some (2^63) /\ Get1 [5; 2^63] 127 = Some 1 /\
+  Get [5; 2^63] 1 = Some 0 /\ Get1 [5; 2^63] 2 = Some 1 /\ Get [5; 2^63] 128 = None /\
+  ~ (0 <= 128 < 64 * zlen [5; 2^63]) /\ SafeGet [5; 2^63] 128 = Some 0 /\ SafeGet1 [5; 2^63] (-1) = Some 0 /\
+  SafeGet [5; 2^63] 127 = Some (2^63) /\ SafeGet1 [5; 2^63] (- 2^31) = Some 0.
+Proof. vm_compute. intuition congruence. Qed.
+
+(** OfMany: a segment of size 0, an empty segment, a position at size-1 *)
+Example C12_OfMany_nonvacuous :
+  ofmany_dom [[0; 63]; []; []; [1]] [64; 0; 5; 2] = true /\
+  shifted [[0; 63]; []; []; [1]] [64; 0; 5; 2] 0 = [0; 63; 70] /\ total [64; 0; 5; 2] = 71 /\
+  OfMany [[0; 63]; []; []; [1]] [64; 0; 5; 2] = Some [2^63 + 1; 64].
+Proof. vm_compute. intuition congruence. Qed.
+
+(** Builder: pre-sized, a position >= size, size 0, Set below / above Offset, an even value *)
+Example C12_Builder_nonvacuous :
+  forallb bop_dom [BExtend [1; 70] 3; BExtend [] 0; BSet 200 (-1); BSet 0 1; BSet 5 2; BExtend [0] 1] = true /\
+  (exists b0 b, NewBuilder 100 = Some b0 /\
+     bfold b0 [BExtend [1; 70] 3; BExtend [] 0; BSet 200 (-1); BSet 0 1; BSet 5 2; BExtend [0] 1] = Some b /\
+     Words b = [3; 64; 0; 2^8 + 2^9] /\ Offset b = 202) /\
+  fold_left astep [BExtend [1; 70] 3; BExtend [] 0; BSet 200 (-1); BSet 0 1; BSet 5 2; BExtend [0] 1] abs0
+    = {| abits := [1; 70; 200; 0; 201]; aoff := 202 |} /\
+  usort [1; 70; 200; 0; 201] = [0; 1; 70; 200; 201] /\
+  ones (flat [3; 64; 0; 2^8 + 2^9]) = [0; 1; 70; 200; 201].
+Proof.
+  split; [reflexivity|]. split; [eexists; eexists; vm_compute; intuition reflexivity|].
+  vm_compute. intuition congruence.
+Qed.
